@@ -86,23 +86,22 @@ impl<'a, TPrinter: Printer> FileExecutor<'a, TPrinter> {
                     break;
                 }
 
-                if let Ok(line) = line {
-                    self.statistics.total_lines += 1;
-                    self.statistics.ingested_bytes += line.len() + 1; // +1 for line ending
+                // An unreadable line (I/O error, invalid UTF-8) must not silently end the file
+                let line = line.map_err(|err| ExecutionError::FailReadFile(format!("{}", err)))?;
 
-                    let output = self.execution_engine.execute(line, &config)?;
-                    if let Some(result_row) = output.result_row {
-                        if self.display_options.print_result {
-                            self.statistics.total_result_rows += result_row.data.len() as u64;
-                            self.output_printer.print(&result_row, self.display_options.single_result);
-                        }
-                    }
+                self.statistics.total_lines += 1;
+                self.statistics.ingested_bytes += line.len() + 1; // +1 for line ending
 
-                    if output.reached_limit {
-                        break 'readers;
+                let output = self.execution_engine.execute(line, &config)?;
+                if let Some(result_row) = output.result_row {
+                    if self.display_options.print_result {
+                        self.statistics.total_result_rows += result_row.data.len() as u64;
+                        self.output_printer.print(&result_row, self.display_options.single_result);
                     }
-                } else {
-                    break;
+                }
+
+                if output.reached_limit {
+                    break 'readers;
                 }
             }
         }
